@@ -8,7 +8,7 @@ interpreting the functions of PlanJoinTablesQuery (sa/interp.py, fail-closed) on
 import ast
 import itertools
 
-from ..source import AnalysisError, norm
+from ..source import AnalysisError, norm, const_str
 from ..cfg import class_named, function_named
 from ..interp import class_members, Interp, Obj, Raised, ClassRef
 from ..grammar import load_dialect, DIALECTS
@@ -195,6 +195,11 @@ def run(ctx):
             ctx.ob('C08.conjunct-only', f'{label}:anchor', not missing, f'WHERE {label}: top-level conjuncts are not registered at all (rule would be vacuous)',
                    file=PJ, line=fn['check_query_conditions'].lineno)
         ints = {k: v for k, v in self_.attrs['query_context'].items() if isinstance(v, int) and not isinstance(v, bool)}
+        # the entry process_table compares the number of applied filters with
+        cmp_keys = [const_str(x.slice) for c_ in ast.walk(fn['process_table']) if isinstance(c_, ast.Compare) for x in ast.walk(c_)
+                    if isinstance(x, ast.Subscript) and norm(x.value) == 'self.query_context' and const_str(x.slice) in ints]
+        if len(ints) > 1 and cmp_keys:
+            ints = {k: v for k, v in ints.items() if k in cmp_keys}
         ctx.need(len(ints) == 1, f'check_query_conditions: expected one integer entry (number of WHERE conjuncts) in query_context, found {sorted(ints)}')
         count_key, n = list(ints.items())[0]
         ctx.ob('C08.conjunct-only', f'{label}:count', n == len(top),
@@ -502,8 +507,20 @@ def run(ctx):
         stubs['self.get_table_for_column'] = lambda it, c: c.attrs.get('_table') if isinstance(c, Obj) and c.kind == 'Identifier' else None
         stubs['self.planner.get_integration_select_step'] = lambda it, s: (captured.append(s), Obj('FetchDataframeStep', query=s, result='R'))[1]
         stubs['self.add_plan_step'] = lambda it, s: s
-        self_ = new_pjt(query_context={'use_limit': use_limit, 'binary_ops': ['and', 'or'] if has_or else ['and'], count_key: n_conj},
-                    tables_fetch_step={}, step_stack=[])
+        # the bookkeeping entries are the ones check_query_conditions itself creates for a WHERE of n_conj conjuncts; the entries this table varies are then set
+        base_ctx = new_pjt(query_context={})
+        w_ = None
+        for i in range(n_conj):
+            w_ = cmp_(f't9.w{i}') if w_ is None else binop('and', w_, cmp_(f't9.w{i}'))
+        st0 = base_stubs()
+        st0['self.check_node_condition'] = lambda it, n: None
+        try:
+            interp_for(st0).call_function(fn['check_query_conditions'], [base_ctx, select_ctor(None, where=w_)], {}, _env())
+        except Raised as r:
+            raise AnalysisError(f'check_query_conditions raises {r.exc_name}')
+        qc = dict(base_ctx.attrs['query_context'])
+        qc.update({'use_limit': use_limit, 'binary_ops': ['and', 'or'] if has_or else ['and'], count_key: n_conj})
+        self_ = new_pjt(query_context=qc, tables_fetch_step={}, step_stack=[])
         it = interp_for(stubs)
         try:
             it.call_function(fn['process_table'], [self_, me, q], {}, _env())
@@ -581,6 +598,7 @@ def run(ctx):
                f'plan(): with {label} present the complete outer query (targets, WHERE, GROUP BY, HAVING, ORDER BY, LIMIT, OFFSET, DISTINCT) must be '
                f're-applied to the join result in one QueryStep on a copy; steps added: {len(added)}', file=PJ, line=fn['plan'].lineno,
                witness='select distinct a.x from int1.a join int2.b on ...')
+    rows += check_where_kept(ctx, fn, cmp_)
     # ---- a sub-select member of a join: the outer conditions on it are applied to its RESULT, never written into it -------------------------------------
     psub = fn.get('process_subselect')
     ctx.need(psub is not None, 'PlanJoinTablesQuery.process_subselect not found')
@@ -780,6 +798,64 @@ def run(ctx):
     ctx.floor('limit_gate_rows', 1000)
     ctx.floor('limit_push_rows', 150)
     ctx.floor('join_kinds', 10)
+
+
+def check_where_kept(ctx, fn, cmp_):
+    """plan_join_tables interpreted end to end on joins of two and three plain tables (real check_query_conditions / check_use_limit / process_table; stand-ins for
+    the planner, the step classes and the already-checked join sequence): the WHERE the caller's query carries afterwards is what plan() re-applies to the join
+    result.  Under an outer join every top-level conjunct must still be there: a comparison moved into the fetch of the nullable side does not remove the rows the
+    outer join then fills with NULLs - only the re-applied WHERE does."""
+    pjt = fn.get('plan_join_tables')
+    ctx.need(pjt is not None, 'PlanJoinTablesQuery.plan_join_tables not found')
+    vocab = join_vocabulary(ctx)
+    n = 0
+    for kind, nt, side in itertools.product(vocab, (2, 3), ('both', 'right', 'left', 'none-pushable')):
+        tis = [Obj('TableInfo', integration=f'int{i}', table=ident(f't{i}'), aliases=[(f't{i}',)], conditions=[], sub_select=None, predictor_info=None,
+                   join_condition=None if i == 1 else binop('=', ident(f't1.id'), ident(f't{i}.id')), join_type=None if i == 1 else (kind if i == nt else 'INNER JOIN'),
+                   index=i - 1) for i in range(1, nt + 1)]
+        seq = [tis[0], tis[1], Obj('Join', join_type=tis[1].join_type, condition=tis[1].join_condition, left=None, right=None, implicit=False)]
+        if nt == 3:
+            seq += [tis[2], Obj('Join', join_type=kind, condition=tis[2].join_condition, left=None, right=None, implicit=False)]
+        last = f't{nt}'
+        conj = {'both': [cmp_('t1.a'), cmp_(f'{last}.b')], 'right': [cmp_(f'{last}.b')], 'left': [cmp_('t1.a')],
+                'none-pushable': [binop('=', ident('t1.a'), ident(f'{last}.b'))]}[side]
+        where = conj[0] if len(conj) == 1 else binop('and', conj[0], conj[1])
+        want = [_show(c) for c in conj]
+        q = select_ctor(None, targets=[Obj('Star')], from_table=Obj('Join'), where=where)
+        stubs = base_stubs()
+        stubs['self.planner.get_nested_selects_plan_fnc'] = lambda it, *a, **k: (lambda node, **kw: None)
+        stubs['self.get_join_sequence'] = lambda it, node, *a, **k: list(seq)
+        stubs['self.get_filters_from_join_conditions'] = lambda it, item: []
+        stubs['self.planner.get_integration_select_step'] = lambda it, s_: Obj('FetchDataframeStep', query=s_, result=Obj('Result'))
+        stubs['self.add_plan_step'] = lambda it, s_: s_
+        stubs['self.close_partition'] = lambda it: None
+        stubs['JoinStep'] = lambda it, **k: Obj('JoinStep', result=Obj('Result'), **k)
+        self_ = new_pjt(planner=Obj('QueryPlanner', default_namespace='mindsdb'), tables_idx={(f't{i}',): tis[i - 1] for i in range(1, nt + 1)}, tables=list(tis), query_context={}, tables_fetch_step={}, step_stack=[],
+                        partition=None)
+        it = interp_for(stubs)
+        label = f'{kind}:{nt} tables:where on {side}'
+        try:
+            it.call_function(pjt, [self_, q], {}, _env())
+        except Raised as r:
+            if r.exc_name in ('PlanningException', 'NotImplementedError'):
+                continue
+            raise AnalysisError(f'plan_join_tables raises {r.exc_name} on {label}')
+        n += 1
+        outer = any(w in kind.upper().split() for w in ('LEFT', 'RIGHT', 'FULL', 'OUTER'))
+        got = [_show(c) for c in _conjuncts(q.where)]
+        missing = [w for w in want if w not in got]
+        if outer:
+            ctx.ob('C08.where-kept', label, not missing,
+                   f'{label}: after plan_join_tables the query that is re-applied to the join result has WHERE {got or "nothing"}; the conjunct(s) {missing} of the query are '
+                   f'gone. Under a {kind} the rows the join fills with NULLs are rejected only by the WHERE applied after the join', file=PJ, line=pjt.lineno,
+                   witness=f"select * from int1.t1 {kind.lower()} int2.t2 on t1.id = t2.id where t2.b = 1")
+        else:
+            ctx.ob('C08.where-kept', label, not missing or side != 'none-pushable',
+                   f'{label}: the comparison between two tables {missing} is dropped from the WHERE re-applied after the join, and no fetch can evaluate it',
+                   file=PJ, line=pjt.lineno)
+    ctx.setcount('where_kept_rows', n)
+    ctx.floor('where_kept_rows', 40)
+    return n
 
 
 def _all_nodes(n):
